@@ -2206,6 +2206,11 @@ static int wildcardMatch(char *wild, char *s)
         {
             return -1;
         }
+        if (e == s)
+        {
+            /* The wildcard stands for exactly one non-empty label */
+            return -1;
+        }
         if (strcasecmp(c, e) == 0)
         {
             return 0;
